@@ -119,7 +119,8 @@ CHECKS = {
                  "segment, planar quad, collinear triple) fully crossed as ordered pairs x 9 lattice placements (coincident, exactly "
                  "touching along x/z/diagonal, 1e-9 gap, half overlapping, apart, small generic, same object twice) + orientation pairs; "
                  "every narrow-phase entry point (11 + epa) runs under a counted budget of 1000 support evaluations and a per-state "
-                 "watchdog; outputs must be finite; the only tolerated exception is epa's capacity assertion."),
+                 "watchdog; outputs must be finite; the only tolerated exception is epa's capacity assertion."
+                 " Also: vertex/segment and segment/segment pairs in general position (gaps 0, 1e-7, 1e-5, 1e-3 perpendicular to the segment), 1e-5 gaps along x and z; EPA's capacity assertion counts as a violation for two small polytopes with a genuine GJK tetrahedron."),
         "design_ref": "DESIGN.md 5 C19",
         "note": "Bounded statement: no explored input needs more than 1000 evaluations; nothing is claimed about all inputs. self_collision.detect is exercised by C06.",
         "technique": "bounded-exhaustive degenerate-geometry lattice on the real entry points under a support-call budget and watchdog sandbox",
